@@ -14,6 +14,7 @@ import re
 from .. import sym, irrules
 from ..sym import const_of, single_atom, atom, L
 from ..irrules import Report, base_name, obj_of, where
+from .ir_bounds import cmp_atom
 
 
 def class_n(f):
@@ -87,6 +88,11 @@ class PairRule(sym.Rule):
         if ev.kind == 'call' and ev.callee and self.orc.kind.get(ev.callee) == 'ALLOC' \
                 and ev.args and len(ev.args) >= 2:
             return (rs[0], rs[1] | {(ev.ret, ev.args[1])})
+        if ev.kind == 'havoc' and rs[0] and ev.args:
+            # a loop re-entry forgot these objects' words: what was written before is no longer
+            # what the words hold; later writes put the object back under observation
+            keep = frozenset(o for o in rs[0] if not any(a in ev.args for a, c in o))
+            return (keep, rs[1])
         return rs
 
     def on_exit(self, rs, kind, st, f, eng, rv=None):
@@ -153,10 +159,10 @@ class PairRule(sym.Rule):
                 return 'delegated', ''
             return 'bad', 'data pointer written without the capacity'
         # fresh
+        if any(P == p and C == n for (p, n) in allocs):
+            return 'fresh', ''
         for (p, n) in allocs:
             if P == p:
-                if C == n:
-                    return 'fresh', ''
                 return 'bad', 'pointer from an allocation of a different count than the capacity written'
         cc = const_of(C)
         # inline
@@ -195,8 +201,8 @@ class PairRule(sym.Rule):
         how = None
         # symmetrical exchange: the source received this object's old words
         for (c, v) in st.conds:
-            a = single_atom(c)
-            if a is None or a[0] != 'cmp':
+            a = cmp_atom(c)
+            if a is None:
                 continue
             if a[1] == 'ult' and v is True and const_of(a[2]) is not None:
                 k = const_of(a[2])
@@ -219,8 +225,8 @@ class PairRule(sym.Rule):
             lt_this = False
             le = False
             for (c, v) in st.conds:
-                a = single_atom(c)
-                if a is None or a[0] != 'cmp':
+                a = cmp_atom(c)
+                if a is None:
                     continue
                 if a[1] == 'ult' and v is True and const_of(a[2]) is not None and const_of(a[2]) >= n:
                     i = init_of(a[3])
